@@ -47,16 +47,20 @@ def run(ctx):
         for sd in seeds:
             traces.append(_record(ctx, exe, "exact", 240 if q else 1600, 1, sd, "exact-%d.ndjson" % sd))
             traces.append(_record(ctx, exe, "rel", 200 if q else 1200, 1, sd, "rel-%d.ndjson" % sd))
+            traces.append(_record(ctx, exe, "hist", 160 if q else 1200, 1, sd, "hist-%d.ndjson" % sd))
+            traces.append(_record(ctx, exe, "frp", 80 if q else 600, 1, sd, "frp-%d.ndjson" % sd))
         if not q:
             # the same drivers against the ASan/UBSan-instrumented STIR libraries: an access outside the
             # image (border voxels) aborts the run and leaves an Abort line
             exes = lib.build_driver("c09_priors", santree=True)
             traces.append(_record(ctx, exes, "exact", 120, 1, ctx.seed + 7, "exact-san.ndjson", san=True))
             traces.append(_record(ctx, exes, "rel", 120, 1, ctx.seed + 7, "rel-san.ndjson", san=True))
+            traces.append(_record(ctx, exes, "hist", 120, 1, ctx.seed + 7, "hist-san.ndjson", san=True))
+            traces.append(_record(ctx, exes, "frp", 60, 1, ctx.seed + 7, "frp-san.ndjson", san=True))
     # 3. validate (chunks in parallel)
     chunks = []
     for t in traces:
-        chunks += lib.split_trace(t, os.path.join(ctx.work, "chunks"), maxlines=6000 if q else 12000)
+        chunks += lib.split_trace(t, os.path.join(ctx.work, "chunks"), maxlines=6000 if q else 12000, boundary="New" if "hist" in os.path.basename(t) else "Config")
     res = lib.validate_parallel("Trace_Priors", [c[0] for c in chunks], jobs=4 if q else 8, timeout=1500)
     known_ids = {k["id"] for k in ctx.known}
     nconf = 0
@@ -70,7 +74,7 @@ def run(ctx):
         cid = None
         cfgline = {}
         for i, rec in enumerate(recs, 1):
-            if rec["e"] == "Config":
+            if rec["e"] in ("Config", "New"):
                 cid = "|".join(str(rec.get(k)) for k in KEYS) + "|k%d" % (1 if rec.get("kappa") or rec.get("hasKappa") else 0)
                 nconf += 1
                 per_prior[rec["prior"] + "/" + rec["mode"]] = per_prior.get(rec["prior"] + "/" + rec["mode"], 0) + 1
@@ -96,7 +100,7 @@ def run(ctx):
             # replay file: the configuration (and image) lines the unexplained lines depend on + those lines
             out, cfg_rec, img_rec, emitted = [], None, None, set()
             for i, rec in enumerate(recs, 1):
-                if rec["e"] == "Config":
+                if rec["e"] in ("Config", "New"):
                     cfg_rec, img_rec = (i, rec), None
                 elif rec["e"] == "Image":
                     img_rec = (i, rec)
